@@ -1,1 +1,313 @@
-//! C17 monitor (filled in below)
+//! C17 — output is a pure function of the call sequence; equivalent API paths agree.
+
+use super::*;
+use crate::exec::{apply_op, builder_of, classify, guard, run, run_on, ExecOpts};
+use crate::sink::{OneByteVec, RecSink};
+use crate::util::Rng;
+use std::io::Write;
+use std::sync::atomic::{AtomicU64, Ordering};
+use std::sync::{Arc, Barrier, Mutex};
+
+fn v(sig: String, detail: String) -> Violation {
+    Violation::new("C17", sig, detail)
+}
+
+#[derive(Clone, PartialEq, Debug)]
+pub struct Outcome {
+    pub build: Res,
+    pub results: Vec<Res>,
+    pub bytes: Vec<u8>,
+}
+
+impl Outcome {
+    pub fn digest(&self) -> u64 {
+        crate::util::mix(crate::util::fnv(format!("{:?}{:?}", self.build, self.results).as_bytes()), crate::util::fnv(&self.bytes))
+    }
+}
+
+pub fn reference(h: &History) -> Outcome {
+    let (ex, sink) = run(h, &ExecOpts::default());
+    Outcome { build: ex.build, results: ex.results, bytes: sink.bytes() }
+}
+
+fn first_diff(a: &Outcome, b: &Outcome, h: &History) -> String {
+    if a.build != b.build {
+        return format!("build: {} vs {}", a.build.brief(), b.build.brief());
+    }
+    for (i, (x, y)) in a.results.iter().zip(b.results.iter()).enumerate() {
+        if x != y {
+            return format!("call #{} {}: {} vs {}", i, h.ops[i].brief(), x.brief(), y.brief());
+        }
+    }
+    let p = a.bytes.iter().zip(b.bytes.iter()).position(|(x, y)| x != y).unwrap_or(a.bytes.len().min(b.bytes.len()));
+    format!("output bytes differ at offset {} (sizes {} vs {})", p, a.bytes.len(), b.bytes.len())
+}
+
+/// (a) instances / threads / concurrency.
+pub fn check_threads(hs: &[History], threads: u32, seed: u64, obs: &mut Obs) -> Vec<Violation> {
+    let mut out = Vec::new();
+    let refs: Vec<Outcome> = hs.iter().map(reference).collect();
+    // a second instance on the same thread first
+    for (h, r) in hs.iter().zip(refs.iter()) {
+        let again = reference(h);
+        if &again != r {
+            out.push(v("second-instance-differs".into(), format!("{} ; {}", h.brief(), first_diff(r, &again, h))));
+            return out;
+        }
+    }
+    let t = threads.max(1) as usize;
+    let ticket = Arc::new(AtomicU64::new(0));
+    let trace: Arc<Mutex<Vec<(u64, u8)>>> = Arc::new(Mutex::new(Vec::new()));
+    let barrier = Arc::new(Barrier::new(t));
+    let hs_arc: Arc<Vec<History>> = Arc::new(hs.to_vec());
+    let mut handles = Vec::new();
+    for tid in 0..t {
+        let (ticket, trace, barrier, hs_arc) = (ticket.clone(), trace.clone(), barrier.clone(), hs_arc.clone());
+        handles.push(std::thread::spawn(move || {
+            let mut r = Rng::new(crate::util::mix(seed, tid as u64));
+            let mine: Vec<usize> = (0..hs_arc.len()).filter(|j| (crate::util::mix(seed, *j as u64 + 1000) % t as u64) as usize == tid).collect();
+            let mut local: Vec<(u64, u8)> = Vec::new();
+            let mut outs: Vec<(usize, Outcome)> = Vec::new();
+            barrier.wait();
+            for j in mine {
+                let sink = RecSink::new(crate::sink::Fault::None);
+                let cell = std::cell::RefCell::new((&mut r, &mut local));
+                let ex = run_on(sink.clone(), &hs_arc[j], &ExecOpts::default(), &|_q| {
+                    let mut c = cell.borrow_mut();
+                    let tk = ticket.fetch_add(1, Ordering::SeqCst);
+                    c.1.push((tk, tid as u8));
+                    // injected delays *between* calls: the only points where another muxer can interleave
+                    match c.0.below(8) {
+                        0 => std::thread::yield_now(),
+                        1 => std::thread::sleep(std::time::Duration::from_micros(c.0.range(1, 50))),
+                        _ => {}
+                    }
+                });
+                outs.push((j, Outcome { build: ex.build, results: ex.results, bytes: sink.bytes() }));
+            }
+            trace.lock().unwrap().extend(local);
+            outs
+        }));
+    }
+    let mut all: Vec<(usize, Outcome)> = Vec::new();
+    for h in handles {
+        match h.join() {
+            Ok(o) => all.extend(o),
+            Err(_) => {
+                out.push(v("worker-thread-panicked".into(), "a worker thread running muxers panicked".into()));
+                return out;
+            }
+        }
+    }
+    for (j, o) in &all {
+        if o != &refs[*j] {
+            out.push(v(format!("concurrent-run-differs|threads={}", if t > 1 { "many" } else { "1" }), format!("{} on {} threads ; {}", hs[*j].brief(), t, first_diff(&refs[*j], o, &hs[*j]))));
+            break;
+        }
+    }
+    let mut tr = trace.lock().unwrap().clone();
+    tr.sort();
+    let switches = tr.windows(2).filter(|w| w[0].1 != w[1].1).count();
+    let sig = crate::util::fnv(&tr.iter().map(|x| x.1).collect::<Vec<u8>>());
+    obs.count("calls_ticketed", tr.len() as u64);
+    obs.count("context_switches_observed", switches as u64);
+    obs.set("interleaving_signatures", format!("{:016x}", sig));
+    obs.count("thread_runs", 1);
+    obs.max("max_threads", t as u64);
+    out
+}
+
+/// Muxer moved between threads: built on A, fed on B, finished on C. Compiles only while
+/// Muxer<W>: Send follows from W: Send.
+pub fn run_moved<W: Write + Send + 'static>(w: W, h: &History) -> (Res, Vec<Res>) {
+    let cfg = h.cfg.clone();
+    let built = std::thread::spawn(move || guard(|| builder_of(w, &cfg).build())).join().unwrap();
+    let mux = match built {
+        Ok(Ok(m)) => m,
+        Ok(Err(e)) => return (Res::Err(classify(&e)), vec![Res::Skipped; h.ops.len()]),
+        Err((msg, loc)) => return (Res::Panic { msg, loc }, vec![Res::Skipped; h.ops.len()]),
+    };
+    let k = h.ops.len() / 2;
+    let first: Vec<Op> = h.ops[..k].to_vec();
+    let second: Vec<Op> = h.ops[k..].to_vec();
+    let (mux, mut r1) = std::thread::spawn(move || {
+        let mut m = Some(mux);
+        let r: Vec<Res> = first.iter().map(|op| apply_op(&mut m, op, false)).collect();
+        (m, r)
+    })
+    .join()
+    .unwrap();
+    let r2 = std::thread::spawn(move || {
+        let mut m = mux;
+        let r: Vec<Res> = second.iter().map(|op| apply_op(&mut m, op, false)).collect();
+        drop(m);
+        r
+    })
+    .join()
+    .unwrap();
+    r1.extend(r2);
+    (Res::Ok, r1)
+}
+
+/// (a') moves + (b) sink types.
+pub fn check_sinks_and_moves(h: &History, tmpdir: &str, obs: &mut Obs) -> Vec<Violation> {
+    let mut out = Vec::new();
+    let r = reference(h);
+    if r.results.iter().any(|x| x.is_panic()) || r.build.is_panic() {
+        obs.inconclusive += 1;
+        return out;
+    }
+    let no_seq = |_q: u32| {};
+    let mut cmp = |name: &str, build: Res, results: Vec<Res>, bytes: Vec<u8>, out: &mut Vec<Violation>| {
+        let o = Outcome { build, results, bytes };
+        if o != r {
+            out.push(v(format!("sink-type-differs|{}", name), format!("{} ; {}", h.brief(), first_diff(&r, &o, h))));
+        }
+        obs.set("sink_types", name);
+    };
+    // moved across threads (RecSink is Send)
+    {
+        let sink = RecSink::new(crate::sink::Fault::None);
+        let (b, res) = run_moved(sink.clone(), h);
+        cmp("moved-across-3-threads", b, res, sink.bytes(), &mut out);
+    }
+    {
+        let mut vec: Vec<u8> = Vec::new();
+        let ex = run_on(&mut vec, h, &ExecOpts::default(), &no_seq);
+        cmp("&mut Vec<u8>", ex.build, ex.results, vec, &mut out);
+    }
+    {
+        let mut cur = std::io::Cursor::new(Vec::<u8>::new());
+        let ex = run_on(&mut cur, h, &ExecOpts::default(), &no_seq);
+        cmp("Cursor<Vec<u8>>", ex.build, ex.results, cur.into_inner(), &mut out);
+    }
+    {
+        let mut ob = OneByteVec(Vec::new());
+        let ex = run_on(&mut ob, h, &ExecOpts::default(), &no_seq);
+        cmp("one-byte-per-write sink", ex.build, ex.results, ob.0, &mut out);
+    }
+    {
+        let shared = RecSink::new(crate::sink::Fault::None);
+        let boxed: Box<dyn Write + Send> = Box::new(shared.clone());
+        let ex = run_on(boxed, h, &ExecOpts::default(), &no_seq);
+        cmp("Box<dyn Write + Send>", ex.build, ex.results, shared.bytes(), &mut out);
+    }
+    let _ = std::fs::create_dir_all(tmpdir);
+    let path = format!("{}/c17-{}-{:x}.bin", tmpdir, std::process::id(), h.hash());
+    if let Ok(f) = std::fs::File::create(&path) {
+        let ex = run_on(f, h, &ExecOpts::default(), &no_seq);
+        let bytes = std::fs::read(&path).unwrap_or_default();
+        cmp("File", ex.build, ex.results, bytes, &mut out);
+    }
+    if let Ok(f) = std::fs::File::create(&path) {
+        let ex = run_on(std::io::BufWriter::new(f), h, &ExecOpts::default(), &no_seq);
+        let bytes = std::fs::read(&path).unwrap_or_default();
+        cmp("BufWriter<File>", ex.build, ex.results, bytes, &mut out);
+    }
+    let _ = std::fs::remove_file(&path);
+    obs.count("sink_and_move_comparisons", 1);
+    out
+}
+
+/// (d) equivalent API paths.
+pub fn check_paths(h: &History, obs: &mut Obs) -> Vec<Violation> {
+    let mut out = Vec::new();
+    let r = reference(h);
+    if r.results.iter().any(|x| x.is_panic()) {
+        obs.inconclusive += 1;
+        return out;
+    }
+    // builder aliases
+    for bits in [1u8, 2, 4, 7] {
+        let mut h2 = h.clone();
+        h2.cfg.path ^= bits;
+        // path bit 4 moves creation time / language to the builder setters: same metadata only if
+        // a Metadata object exists or is created by the setters; keep `meta` semantics equal
+        if bits & 4 != 0 && !(h.cfg.meta || h.cfg.ctime.is_none() && h.cfg.lang.is_none()) {
+            continue;
+        }
+        let o = reference(&h2);
+        if o != r {
+            out.push(v(format!("builder-alias-differs|bits={}", bits), format!("{} ; {}", h.brief(), first_diff(&r, &o, h))));
+            break;
+        }
+        obs.count("alias_pairs", 1);
+    }
+    // finish entry points: only the last op, when it is the first finish
+    if let Some(pos) = h.ops.iter().position(|o| o.is_finish()) {
+        if pos + 1 == h.ops.len() {
+            for k in [FinishKind::InPlace, FinishKind::InPlaceStats, FinishKind::Finish, FinishKind::FinishStats, FinishKind::Flush] {
+                let mut h2 = h.clone();
+                h2.ops[pos] = Op::Finish(k);
+                let o = reference(&h2);
+                let ok_same = o.results[pos].is_ok() == r.results[pos].is_ok();
+                if o.bytes != r.bytes || !ok_same || o.results[..pos] != r.results[..pos] {
+                    out.push(v(format!("finish-entry-point-differs|{:?}", k), format!("{} ; {}", h.brief(), first_diff(&r, &o, h))));
+                    break;
+                }
+                // stats-bearing variants agree with each other
+                if let (Res::OkStats(a), Res::OkStats(b)) = (&o.results[pos], &r.results[pos]) {
+                    if a != b {
+                        out.push(v("finish-stats-differ".into(), format!("{:?} vs {:?}", a, b)));
+                    }
+                }
+                obs.count("finish_pairs", 1);
+            }
+        }
+    }
+    // AudioCodec::None vs no audio
+    if h.cfg.audio.is_none() || h.cfg.audio.as_ref().map(|a| a.kind == A_NONE).unwrap_or(false) {
+        let mut h2 = h.clone();
+        h2.cfg.audio = if h.cfg.audio.is_none() { Some(AudioCfg { kind: A_NONE, rate: 44_100, channels: 2 }) } else { None };
+        let o = reference(&h2);
+        if o != r {
+            out.push(v("audio-none-vs-no-audio".into(), format!("{} ; {}", h.brief(), first_diff(&r, &o, h))));
+        }
+        obs.count("audio_none_pairs", 1);
+    }
+    // encode_* vs explicit timestamps at the same ticks
+    let all_encode_v = h.ops.iter().filter(|o| o.is_video()).all(|o| matches!(o, Op::EncodeVideo { .. }));
+    let all_encode_a = h.ops.iter().filter(|o| o.is_audio()).all(|o| matches!(o, Op::EncodeAudio { .. }));
+    if all_encode_v && all_encode_a && h.ops.iter().any(|o| o.is_video()) && r.results.iter().all(|x| x.is_ok()) {
+        let rate = h.cfg.audio_effective().map(|a| a.rate as u64).unwrap_or(1).max(1);
+        let mut h2 = h.clone();
+        let (mut vms, mut asamp, mut vidx) = (0u64, 0u64, 0u64);
+        let mut skip = false;
+        for op in h2.ops.iter_mut() {
+            match op.clone() {
+                Op::EncodeVideo { data, dur_ms } => {
+                    let key = super::c04::detect_key(h.cfg.vcodec, &data, vidx);
+                    let Some(key) = key else {
+                        skip = true;
+                        break;
+                    };
+                    *op = Op::wv(vms as f64 / 1000.0, data, key);
+                    vms += dur_ms as u64;
+                    vidx += 1;
+                }
+                Op::EncodeAudio { data, samples } => {
+                    // exact-rational tick of asamp/rate; skip near ties
+                    let num = asamp as u128 * 90_000;
+                    let frac = (num % rate as u128) as f64 / rate as f64;
+                    if (frac - 0.5).abs() < 1e-4 {
+                        skip = true;
+                        break;
+                    }
+                    *op = Op::wa(asamp as f64 / rate as f64, data);
+                    asamp += samples as u64;
+                }
+                _ => {}
+            }
+        }
+        if !skip {
+            let o = reference(&h2);
+            if o.bytes != r.bytes {
+                out.push(v("encode-vs-explicit-timestamps".into(), format!("{} ; {}", h.brief(), first_diff(&r, &o, &h2))));
+            }
+            obs.count("encode_pairs", 1);
+        } else {
+            obs.count("encode_pairs_skipped_ambiguous", 1);
+        }
+    }
+    out
+}
